@@ -19,7 +19,7 @@ pub fn check(tier: Tier) -> Check {
         also_rel: false,
         property: "C12",
         level: "exploration",
-        rule: "all request kinds (publish QoS 0/1/2 with payload 0..max, 112..128 and 16368..16384 bytes - packet lengths on both sides of the one-/two-/three-byte remaining-length steps - and topic 1..3 bytes, subscribe / unsubscribe with 1-2 filters and 0-1 user property, ping, disconnect with / without reason string) x M in {L-1, L, L+1, 1, 2^32-1, absent} x Receive Maximum in {1, absent} x CONNACK {bare, carrying six other properties around them} x connection flavour {bare, every CONNECT option set incl. the client's own Maximum Packet Size 16 and Session Present = 1, a CONNACK received through authorize()}, L computed by the reference encoder; issued on an idle client and with a ping, a subscribe and an unsubscribe of other callers outstanding (their acknowledgements must still reach them); followed by a QoS 1 publish, its PUBACK, an accepted subscribe, and an inbound PUBLISH naming the rejected subscription's would-be identifier; (C12/reconnect) one Context connected twice (end-of-stream, set_up on a fresh transport, connect, run): first CONNACK with M1, second with M2, each in {absent, 16, 45, 46, 47, 200}, requests of 46 bytes and of other sizes on both connections - the limit in force is the current connection's; (C12/early) a request (publish QoS 0/1/2, unsubscribe, ping, disconnect) made before connect(), or between two connections whose CONNACKs state opposite limits, M in {L-1, L, absent}: it is measured against the limit of the connection that carries it; the length L of a SUBSCRIBE depends on the subscription identifier the library will choose, so L is learned from a probe execution of the same history without M (identifier allocation is deterministic in the history) instead of assuming the identifiers count up from 1; non-trivial = a request was refused for size".into(),
+        rule: "all request kinds (publish QoS 0/1/2 with payload 0..max, 112..128 and 16368..16384 bytes - packet lengths on both sides of the one-/two-/three-byte remaining-length steps - and topic 1..3 bytes, subscribe / unsubscribe with 1-2 filters and 0-1 user property, ping, disconnect with / without reason string) x M in {L-1, L, L+1, 1, 2^32-1, absent} x Receive Maximum in {1, absent} x CONNACK {bare, carrying six other properties around them} x connection flavour {bare, every CONNECT option set incl. the client's own Maximum Packet Size 16 and Session Present = 1, a CONNACK received through authorize()}, L computed by the reference encoder; issued on an idle client, with a ping, a subscribe and an unsubscribe of other callers outstanding (their acknowledgements must still reach them), and with another caller's QoS 1 publish unacknowledged (its send-quota slot is neither taken nor given back by a refused request: with Receive Maximum 1 the next QoS 1 publish is refused for the quota until the PUBACK arrives); followed by a QoS 1 publish, its PUBACK, an accepted subscribe, and an inbound PUBLISH naming the rejected subscription's would-be identifier; (C12/reconnect) one Context connected twice (end-of-stream, set_up on a fresh transport, connect, run): first CONNACK with M1, second with M2, each in {absent, 16, 45, 46, 47, 200}, requests of 46 bytes and of other sizes on both connections - the limit in force is the current connection's; (C12/early) a request (publish QoS 0/1/2, unsubscribe, ping, disconnect) made before connect(), or between two connections whose CONNACKs state opposite limits, M in {L-1, L, absent}: it is measured against the limit of the connection that carries it; the length L of a SUBSCRIBE depends on the subscription identifier the library will choose, so L is learned from a probe execution of the same history without M (identifier allocation is deterministic in the history) instead of assuming the identifiers count up from 1; non-trivial = a request was refused for size".into(),
         assumptions: vec![],
         parts,
     }
@@ -234,7 +234,11 @@ pub fn scenario(name: &str, params: &Value) -> Scenario {
         };
         let r1 = chz.choose(2) == 1;
         let flavour = chz.choose(3) as u64;
-        let busy = chz.choose(2) == 1;
+        // 0 = idle client; 1 = a ping, a subscribe and an unsubscribe of other callers outstanding;
+        // 2 = a QoS 1 publish of another caller unacknowledged (it holds a send-quota slot, which a
+        //     refused request of whatever kind must neither take nor give back)
+        let busy_mode = chz.choose(3);
+        let busy = busy_mode == 1;
         // Its length by the reference encoder. A SUBSCRIBE carries the subscription identifier the
         // library chooses, whose encoding is 1-4 bytes long: learn it from a probe execution of the
         // same history without any limit (allocation is a deterministic function of the history).
@@ -248,6 +252,9 @@ pub fn scenario(name: &str, params: &Value) -> Scenario {
                 ps.apply(Ev::Start(OpSpec::Ping));
                 ps.apply(Ev::Start(OpSpec::Subscribe(SubscribeSpec::simple("b"))));
                 ps.apply(Ev::Start(OpSpec::Unsubscribe(UnsubscribeSpec::simple("b"))));
+            }
+            if busy_mode == 2 {
+                ps.apply(Ev::Start(OpSpec::Publish(PublishSpec::simple(1, "o", b""))));
             }
             ps.apply(Ev::Start(spec.clone()));
             if ps.dead {
@@ -311,6 +318,13 @@ pub fn scenario(name: &str, params: &Value) -> Scenario {
                 return sys.report(ex, &[]);
             }
         }
+        if busy_mode == 2 {
+            sys.apply(Ev::Start(OpSpec::Publish(PublishSpec::simple(1, "o", b""))));
+            first = 1;
+            if sys.dead {
+                return sys.report(ex, &[]);
+            }
+        }
         if kind == 3 {
             // (the probe above told which subscription identifier this call will get)
             sys.m.next_sub_guess = learned_sub.expect("harness: probe");
@@ -346,6 +360,23 @@ pub fn scenario(name: &str, params: &Value) -> Scenario {
             }
             if kind == 5 && !refused && !sys.dead && !sys.m.pings.is_empty() {
                 sys.apply(Ev::Deliver(SPacket::Pingresp));
+            }
+            if busy_mode == 2 && !sys.dead {
+                // the other caller's publish is still unacknowledged: with Receive Maximum 1 the next
+                // QoS 1 publish is refused for the quota - whatever happened to the request under test -
+                // and accepted again once the PUBACK has arrived
+                sys.apply(Ev::Start(OpSpec::Publish(PublishSpec::simple(1, "g", b""))));
+                let go = sys.m.ops.len() - 1;
+                if !sys.dead {
+                    if let Some(p) = sys.ack_for(0, 0, "") {
+                        sys.apply(Ev::Deliver(p));
+                    }
+                }
+                if !sys.dead {
+                    if let Some(p) = sys.ack_for(go, 0, "") {
+                        sys.apply(Ev::Deliver(p));
+                    }
+                }
             }
             // follow-up: a QoS 1 publish must be accepted (if it fits) although R may be 1
             sys.apply(Ev::Start(OpSpec::Publish(PublishSpec::simple(1, "f", b""))));
